@@ -18,3 +18,8 @@ def _install_arena_cache():
 
 
 ARENA_CACHE = _install_arena_cache()
+
+if _os.environ.get('QV_REACH'):
+    # line reach map of the repository code (see qv/reach.py); a guide for workloads, no verdict depends on it
+    from . import reach as _reach
+    REACH = _reach.install(_os.environ['QV_REACH'], _os.environ.get('QV_REPO', '/repo'))
